@@ -47,6 +47,7 @@ package jobs
 
 //@ unit (*raffle).borrowTicket
 //@   prop C11
+//@   requires [callers-hold-no-lock-at-or-above-the-raffle] forall l int :: has($held, l) ==> lockLevel(l) < 6
 //@   requires r != nil && job != nil && r.runningJobs != nil && !has($held, addrOf(r.runningMu))
 //@   requires r.ticketsFull >= 0 && r.ticketsIncr >= 0
 //@   ensures [one-run-per-id] old(has(r.runningJobs, job.id)) ==> result == nil
@@ -63,6 +64,7 @@ package jobs
 
 //@ unit (*raffle).returnTicket
 //@   prop C11
+//@   requires [callers-hold-no-lock-at-or-above-the-raffle] forall l int :: has($held, l) ==> lockLevel(l) < 6
 //@   requires r != nil && ticket != nil && ticket.runState != nil && r.runningJobs != nil && !has($held, addrOf(r.runningMu))
 //@   ensures [slot-released] !has(r.runningJobs, ticket.runState.id)
 //@   ensures [ticket-returned] (ticket.runState.isFull ==> r.ticketsFull == old(r.ticketsFull) + 1 && r.ticketsIncr == old(r.ticketsIncr))
@@ -73,6 +75,7 @@ package jobs
 
 //@ unit (*raffle).runningJob
 //@   prop C11
+//@   requires [callers-hold-no-lock-at-or-above-the-raffle] forall l int :: has($held, l) ==> lockLevel(l) < 6
 //@   requires r != nil && !has($held, addrOf(r.runningMu))
 //@   ensures [lookup] has(r.runningJobs, jobid) ==> result == r.runningJobs[jobid]
 //@   ensures [lock-released] $held == old($held)
@@ -80,6 +83,7 @@ package jobs
 
 //@ unit (*raffle).getRunningJobs
 //@   prop C11
+//@   requires [callers-hold-no-lock-at-or-above-the-raffle] forall l int :: has($held, l) ==> lockLevel(l) < 6
 //@   requires r != nil && !has($held, addrOf(r.runningMu))
 //@   ensures [snapshot-copy] result != r.runningJobs
 //@   ensures [lock-released] $held == old($held)
@@ -107,6 +111,7 @@ package jobs
 //@   ensures (result == nil) <==> cnt(arrOf(entities), loOf(entities), hiOf(entities)) == 0
 //@   ensures result == nil ==> $delivered == old($delivered) + len(entities)
 //@   ensures result != nil ==> $delivered == old($delivered)
+//@   ensures !errIs(result, MaxItemsExceededError)
 
 // a failing-entity handler seen through its interface: counts, and stops at its budget
 //@ assumed (jobs.failingEntityHandler).handleFailingEntity
@@ -128,11 +133,15 @@ package jobs
 //@   requires w != nil && len(w.failingEntityHandlers) == 1
 //@   requires MaxItemsExceededError != nil
 //@   requires [budget-open] $hmax <= 0 || $hcount < $hmax
+//@   requires w.recursionDepth >= 0
 //@   ensures [isolated] result == nil ==> $delivered == old($delivered) + len(entities) - cnt(arrOf(entities), loOf(entities), hiOf(entities))
 //@     | && $reported == old($reported) + cnt(arrOf(entities), loOf(entities), hiOf(entities))
 //@   ensures [budget-still-open] result == nil ==> ($hmax <= 0 || $hcount < $hmax)
 //@   ensures [stops-at-max-items] result != nil ==> result == MaxItemsExceededError && $hmax > 0 && $hcount >= $hmax
 //@   ensures [reported-once-each] $reported - old($reported) == $hcount - old($hcount) && $reported - old($reported) <= cnt(arrOf(entities), loOf(entities), hiOf(entities)) && $reported >= old($reported)
+//@   ensures [rejections-leave-an-error] cnt(arrOf(entities), loOf(entities), hiOf(entities)) > 0 ==> w.lastError != nil
+//@   ensures [error-survives-later-clean-batches] old(w.recursionDepth) > 0 && old(w.lastError) != nil ==> w.lastError != nil
+//@   ensures [split-latch-never-released] w.recursionDepth >= old(w.recursionDepth) && (cnt(arrOf(entities), loOf(entities), hiOf(entities)) > 0 && len(entities) > 1 ==> w.recursionDepth > 0)
 //@   ensures [never-delivers-rejected] $delivered >= old($delivered) && $delivered - old($delivered) <= len(entities) - cnt(arrOf(entities), loOf(entities), hiOf(entities))
 //@   decreases len(entities)
 //@   modifies $delivered, $reported, $hcount, wrappedSink.lastError, wrappedSink.recursionDepth
@@ -155,7 +164,7 @@ package jobs
 //@ ghost $syncCalls int
 
 //@ assumed (jobs.Pipeline).sync
-//@   preserves raffle.*, map[string]*jobs.runState, runState.*, ticket.*, job.*, Runner.*
+//@   preserves raffle.*, map[string]*jobs.runState, runState.*, ticket.*, job.*, []*jobs.ErrorHandler, Runner.*
 //@   modifies $syncCalls
 //@   ensures $syncCalls == old($syncCalls) + 1
 
@@ -170,14 +179,15 @@ package jobs
 //@ assumed jobs.queueRetry
 //@   pure
 //@ assumed (*job).instrumentErrorHandling
-//@   preserves raffle.*, map[string]*jobs.runState, runState.*, ticket.*, job.id, job.runner, job.pipeline, Runner.*
-//@ assumed (*job).handleJobError
-//@   preserves raffle.*, map[string]*jobs.runState, runState.*, ticket.*, job.id, job.runner, job.pipeline, Runner.*
+//@   preserves raffle.*, map[string]*jobs.runState, runState.*, ticket.*, job.id, job.runner, job.pipeline, job.errorHandlers, []*jobs.ErrorHandler, Runner.*
 
 //@ unit (*job).Run
 //@   prop C11
+//@   requires [callers-hold-no-lock-at-or-above-the-raffle] forall l int :: has($held, l) ==> lockLevel(l) < 6
 //@   requires j != nil && j.runner != nil && j.runner.raffle != nil && j.runner.raffle.runningJobs != nil && !has($held, addrOf(j.runner.raffle.runningMu))
 //@   requires j.runner.raffle.ticketsFull >= 0 && j.runner.raffle.ticketsIncr >= 0
+//@   requires j.runner.store != nil
+//@   requires forall i int :: 0 <= i && i < len(j.errorHandlers) ==> j.errorHandlers[i] != nil
 //@   ensures [tickets-conserved] j.runner.raffle.ticketsFull == old(j.runner.raffle.ticketsFull) && j.runner.raffle.ticketsIncr == old(j.runner.raffle.ticketsIncr)
 //@   ensures [slot-released] !old(has(j.runner.raffle.runningJobs, j.id)) ==> !has(j.runner.raffle.runningJobs, j.id)
 //@   ensures [no-overlapping-run] old(has(j.runner.raffle.runningJobs, j.id)) ==> $syncCalls == old($syncCalls)
@@ -185,3 +195,27 @@ package jobs
 //@   ensures [at-most-one-sync] $syncCalls <= old($syncCalls) + 1
 //@   ensures [outcome-recorded] $syncCalls == old($syncCalls) + 1 ==> has($storeAttempted, j.id)
 //@   ensures [lock-released] $held == old($held)
+
+// ---------------------------------------------------------------------------
+// C17: bounded re-runs: one failure schedules at most one re-run and consumes one retry at scheduling time
+
+//@ ghost $scheduled int
+//@ assumed time.AfterFunc
+//@   modifies $scheduled
+//@   ensures $scheduled == old($scheduled) + 1
+//@ assumed (*server.Store).GetObject
+//@   modifies jobResult.*, SyncJobState.*
+
+//@ unit (*job).handleJobError
+//@   prop C17
+//@   requires j != nil && j.runner != nil && j.runner.store != nil
+//@   requires forall i int :: 0 <= i && i < len(j.errorHandlers) ==> j.errorHandlers[i] != nil
+//@   ensures [at-most-one-rerun-per-failure] $scheduled <= old($scheduled) + 1
+//@   ensures [recorded-outcomes-are-kept] forall k string :: old(has($storeAttempted, k)) ==> has($storeAttempted, k)
+//@   modifies $scheduled, $persisted, $storeAttempted, ErrorHandler.MaxRetries, jobResult.*, SyncJobState.*, wrappedSink.lastProcessed, Cell.error, []interface{}
+//@   at call AfterFunc#1 before
+//@     assert [retry-budget-consumed-when-the-rerun-is-scheduled] eh.MaxRetries == old(eh.MaxRetries) - 1 && old(eh.MaxRetries) > 0
+//@   loop 1
+//@     invariant -1 <= $i && $i < len(j.errorHandlers)
+//@     invariant $scheduled == old($scheduled)
+//@     invariant forall i int :: 0 <= i && i < len(j.errorHandlers) ==> j.errorHandlers[i] != nil && j.errorHandlers[i].MaxRetries == old(j.errorHandlers[i].MaxRetries)
